@@ -22,7 +22,10 @@ try:
             if l.startswith(">>>>>>> ") and state == "t":
                 state = None
                 if ours and theirs and fname(ours[-1]) and fname(ours[-1]) == fname(theirs[-1]):
-                    out += theirs[:-1] + ours
+                    if os.environ.get("PREFER_SIGNATURE") == "patch":
+                        out += ours[:-1] + theirs
+                    else:
+                        out += theirs[:-1] + ours
                 elif start < 25:
                     seen = []
                     for x in ours + theirs:
